@@ -251,7 +251,7 @@ CLAIMED = {
     },
     "C18": {
         "level": "exploration",
-        "technique": "exhaustive enumeration of built-in functions x argument-kind tuples plus Hypothesis-driven structure-aware mutation fuzzing of reader inputs, DSL text and verb arguments through the real CLI, with a crash/hang/silent-failure oracle",
+        "technique": "exhaustive enumeration of built-in functions x argument-kind tuples, Hypothesis-driven structure-aware mutation fuzzing of reader inputs, DSL text and verb arguments through the real CLI, and (thorough tier) Go native coverage-guided in-process fuzzing whose crashers are re-judged through the CLI; crash/hang/silent-failure oracle",
         "text": ("Seven sub-checks, all with the same oracle: no Go panic / fatal runtime error / stack trace (exit status 2 with a goroutine trace, or death by signal), termination within a guard, "
                  "bounded output, and a diagnostic on every non-zero exit. (1) every function and operator listed by `mlr help usage-functions-by-class` (266, minus system/exec) applied to every "
                  "tuple of argument kinds int/float/boolean/empty/string/array/map/function/error/JSON-null/absent: arity 1 over 119 values (boundary ints +-2^63, 10^6, NaN, +-Inf, subnormal, -0.0, "
@@ -264,7 +264,9 @@ CLAIMED = {
                  "nesting tokens, CR/CRLF/BOM/compression/NUL transforms, 70000-byte fields, 3000 repeated lines) or random bytes/text. (4) 36 fixed large documents (1 MiB fields, 10^5 unbalanced "
                  "brackets/quotes, 400-digit numbers, alias bomb, truncated/oversized gzip, bz2, zlib) x 17 readers x 11 option sets. (5) 55 base programs covering every statement and expression form "
                  "under 0-4 token-level mutations from a 230-token dictionary, 18 nesting shapes up to depth 3000, oversized tokens, x 21 put/filter modes. (6,7) every verb: a valid baseline under 1-3 "
-                 "edits with 80 hostile values, and the exhaustive verb x documented flag x hostile value grid."),
+                 "edits with 80 hostile values, and the exhaustive verb x documented flag x hostile value grid. (8) 14 fixed documents/programs nested beyond what the Go stack holds. (9, thorough only) "
+                 "/verif/fuzz: seven `go test -fuzz` targets (177 built-in functions by arity with arguments decoded from fuzz bytes, number inference round trip, JSON decode/encode stability, "
+                 "strptime, unbackslash + regex compilation), 75 s each; an in-process failure counts only when the same arguments crash the mlr command line."),
         "note": ("Not judged: timeouts of programs that contain while/do/3-part for/func/subr (a programmed loop is not a Miller hang); timeouts on inputs above 64 KiB in the mutation sub-checks (several paths "
                  "are quadratic or cubic in one record's width or nesting depth: 10^4 duplicate keys take 5 s, JSON objects nested 4000 deep take 70 s to print); count-like arguments above 10^5/10^6 "
                  "(leftpad width 2^63 is an allocation failure, not a crash). `Internal coding error` exits without the mlr: prefix are counted (labels/notes), not reported. A hang needs one run beyond the "
